@@ -75,6 +75,11 @@ DumpOpts(p) == /\ fs' = [fs EXCEPT ![p] = "X1"]
 DumpEmpty(p) == /\ fs' = [fs EXCEPT ![p] = "Z"]
                 /\ last' = [act |-> "dump_empty", targets |-> {p}, dir |-> p[1], rec |-> FALSE]
 
+\* the caller removes the directory of p with everything in it and dumps there again: the directories are created again
+\* (whatever was written there before - the library must not remember that it once created them)
+Redump(p) == /\ fs' = [q \in Paths |-> IF q = p THEN "D1" ELSE IF q[1] = p[1] THEN ABSENT ELSE fs[q]]
+             /\ last' = [act |-> "redump", targets |-> {q \in Paths : q[1] = p[1]}, dir |-> p[1], rec |-> FALSE]
+
 (* ------------------------------- properties ----------------------------- *)
 OnlyTargetsChange == [][\A p \in Paths : fs'[p] # fs[p] => p \in last'.targets]_fcVars
 NonRecursiveStaysShallow == [][(last'.act \in {"k2e_dir", "e2k_dir"} /\ ~last'.rec) => \A p \in last'.targets : p[1] = last'.dir]_fcVars
